@@ -155,6 +155,12 @@ def opsSem : Sexp → Option Sexp
   | .list [.atom "judge-ground", p, g, fuel, ans] => do
       let v := evalGoal (← programOfSexp? p) (← fuel.nat?) [] (← goalOfSexp? g)
       some (judgeGround v (groundAnswerOfSexp ans))
+  | .list [.atom "judge-ground", p, g, fuel, ans, .atom ctx] => do
+      let v := evalGoal (← programOfSexp? p) (← fuel.nat?) [] (← goalOfSexp? g)
+      -- `ctx` (which solver, which shape of input) only refines the classifier of a rejection
+      some (match judgeGround v (groundAnswerOfSexp ans) with
+        | .list [.atom "rejected", .atom c, d] => .list [.atom "rejected", .atom (c ++ "@" ++ ctx), d]
+        | r => r)
   | .list [.atom "judge-ground-auto", d, g, fuel, ans, .atom ctx] => do
       let v := evalGoal (autoProgram (← autoDataOfSexp? d)) (← fuel.nat?) [] (← goalOfSexp? g)
       -- `ctx` (which solver, fresh or reused instance) only refines the classifier of a rejection
@@ -189,6 +195,11 @@ def opsSem : Sexp → Option Sexp
       let (x, y) := (answerOfSexp a, answerOfSexp b)
       some (if compatible x y then .list [.atom "accepted", .atom "compatible"]
             else .list [.atom "rejected", .atom "solvers_contradict", .list []])
+  | .list [.atom "compatible", a, b, .atom ctx] =>
+      let (x, y) := (answerOfSexp a, answerOfSexp b)
+      -- `ctx` (the shape of input) only refines the classifier of a rejection
+      some (if compatible x y then .list [.atom "accepted", .atom "compatible"]
+            else .list [.atom "rejected", .atom ("solvers_contradict@" ++ ctx), .list []])
   | .list [.atom "judge-answer", p, g, nvars, fuel, sig, depth, maxc, slg, ans] => do
       let P ← programOfSexp? p
       let pool := termsUpTo (← sigOfSexp? sig) (← depth.nat?)
